@@ -38,6 +38,12 @@ class Gen:
     self.n += 1
     if depth <= 0 or x < 0.25:
       return r.choice([Tok(2000 + self.n), Tok(2000 + self.n), r.randint(0, 3), 's', None])
+    if x < 0.3 and allow_factory and depth >= 1 and r.random() < 0.3:
+      # several DISTINCT argument-less factories of one callable inside one container: each is
+      # evaluated on its own, on every call
+      f = fn_for(r.choice([0, 4, 5]), 'af')
+      afs = [fdl.ArgFactory(f) for _ in range(r.randint(2, 3))]
+      return r.choice([lambda: list(afs), lambda: {'a': afs[0], 'b': [afs[1]]}, lambda: (afs[0], [afs[-1]])])()
     if x < 0.4 and allow_factory:
       return self.buildable(fdl.ArgFactory, depth - 1)
     if x < 0.5:
